@@ -13,15 +13,15 @@ CONFIG = {
                 "VDriver/Fuzz.lean"],
     "theorems": ["V.C18.version_table_total", "V.C18.version_table_keys", "V.C18.compact_no_panic", "V.C18.canonical_no_panic",
                  # every method of the PDU interface on events NewEventFromUntrustedJSON returned (Redact() included); Sign() on them
-                 # WITHOUT any hypothesis on the signatures member (fix ac98af9); every method but Redact() / Sign() on events from
-                 # trusted JSON, RoomID() of a version-12 create event included (fix 72889ee)
+                 # WITHOUT any hypothesis on the signatures member (fix 679c22b); every method but Redact() / Sign() on events from
+                 # trusted JSON, RoomID() of a version-12 create event included (fix 1b1773a)
                  "V.C18.no_panic_accessors", "V.C18.no_panic_sign", "V.C18.no_panic_accessors_trusted",
                  # the former kernel-checked counter-examples (defects D1, D3, D4), now kernel-checked to behave: Sign() on an event
                  # whose signatures member does not decode returns normally; the Room_id / room_id:null event is refused on
                  # receipt; the trusted v12 create event with an event_id member gets a computed ID and a valid room ID
                  "V.C18.sign_undecodable_ok", "V.C18.roomID_variant_refused", "V.C18.trusted_roomID_ok",
                  # state resolution (v1 / v2 / v2.1, current and deprecated entry points) and the orderings: refinement to
-                 # VModel.StateRes + no site fires for ANY auth graph, cyclic or not (fix c5e96b7; before it acyclicity was a
+                 # VModel.StateRes + no site fires for ANY auth graph, cyclic or not (fix 0d78b57; before it acyclicity was a
                  # hypothesis and a self-citing power-levels event a kernel-checked counter-example: D2)
                  "V.C18.resolve_refines", "V.C18.resolve_refines_deprecated", "V.C18.no_panic_resolve",
                  "V.C18.no_panic_resolve_deprecated", "V.C18.no_panic_orderings", "V.C18.resolve_cycle_resolves",
@@ -46,7 +46,7 @@ CONFIG = {
     "assumptions": [
         "trusted-JSON constructors are fed arbitrary bytes for parsing and accessors only (Redact() / Sign() on trusted JSON and EventID() / RoomID() after NewEventFromTrustedJSONWithEventID with an ID of the caller's choosing are the caller's contract)",
         "the hash returns 32 bytes (SHA-256)",
-        "state resolution v2 / v2.1: at least two state sets (caller); nothing is assumed about the auth graph (cyclic auth_events, possible in room versions 1-2 whose event IDs are sender-chosen, are covered since fix c5e96b7). The v2.1 conflicted-subgraph walk is not modelled as a loop (StateRes.conflictedSubgraph is a closure): it would re-walk a cyclic auth graph forever, but v2.1 is selected only by room versions 12 / org.matrix.hydra.11, whose event IDs are hashes of the events (a cycle needs a SHA-256 fixed point)",
-        "Sign() has its own theorem (no_panic_sign, no hypothesis on the signatures member since fix ac98af9); the accessor sweep after Redact(), after Sign() and on the event SetUnsigned() returns is exercised by fuzz.event on every accepted event (events with a case variant of a struct field name or a repeated member name - D3, the content-forgery shapes - are refused on receipt since fixes 77ea759 / 4be2601)",
+        "state resolution v2 / v2.1: at least two state sets (caller); nothing is assumed about the auth graph (cyclic auth_events, possible in room versions 1-2 whose event IDs are sender-chosen, are covered since fix 0d78b57). The v2.1 conflicted-subgraph walk is not modelled as a loop (StateRes.conflictedSubgraph is a closure): it would re-walk a cyclic auth graph forever, but v2.1 is selected only by room versions 12 / org.matrix.hydra.11, whose event IDs are hashes of the events (a cycle needs a SHA-256 fixed point)",
+        "Sign() has its own theorem (no_panic_sign, no hypothesis on the signatures member since fix 679c22b); the accessor sweep after Redact(), after Sign() and on the event SetUnsigned() returns is exercised by fuzz.event on every accepted event (events with a case variant of a struct field name or a repeated member name - D3, the content-forgery shapes - are refused on receipt since fixes 7c511f2 / 849cf70)",
     ],
 }
